@@ -268,3 +268,17 @@ contract(BS + "BacktrackSolver.solve_and_queue", variant="enum", types={"self": 
     calls=_se.calls, call_ghosts=_se.extra["call_ghosts"], ghost_out=_se.extra["ghost_out"],
     loops={1: dict(_se.loops[1], also_modifies=["emitted", "seen", "lv"])},
     ensures=list(_se.ensures), tags=_se.tags, arities=[], timeout_ms=200000)
+
+# ------------------------------------------------------------------ fixpoint layer (C08) at the enumeration level: the state handed back to solve_one after a delivery + pop satisfies its precondition again
+SOF = REG.contracts[BS + "solve_one#fix"]
+SOF.ensures = SOF.ensures + SO.ensures[-2:]
+SOF.result = "opt:i64[V]"
+SOF_REQ = [(l, selfify(c)) for l, c, _t in SOF.clauses("requires")]
+FIX_LOOP_INV = [x for x in SOF_REQ if x[0] not in dict(WF_STATIC) and x[0] not in ("C02.all_decision", "C08.noalias", "C08.affine_eq_full")]
+for fn, types, env, ginit, am in (("solve", {"self": SELF_T}, {"yield": h_yield}, {"delivered": 0}, ["delivered"]),
+                                  ("solve_and_queue", {"self": SELF_T, "processor_idx": "int", "solution_queue": "opaque"}, {"solution_queue.put": h_put}, {"emitted": "emptylist"}, ["emitted"])):
+    contract(BS + "BacktrackSolver." + fn, variant="fix", types=types, result="none", props=["C08"],
+        requires=SOF_REQ, env=env, ghost_init=ginit, ghost={"sigma": "int[D]"},
+        calls={"solve_one": BS + "solve_one#fix"}, call_ghosts={"solve_one": {"sigma": "sigma", "lv0": "0"}},
+        loops={1: dict(fingerprint="while True", also_modifies=am, invariant=FIX_LOOP_INV)},
+        ensures=[], tags={"C08": ["C08"], "wf": ["C16"], "C02": ["C08"], "C17": ["C08"], "C01": ["C08"]}, arities=[], timeout_ms=200000)
